@@ -627,7 +627,7 @@ def op_append_block(fs, d, r, keep_csum, which=None):
 
 
 SB_VARIANTS = ["bpg_big", "bpg_big_nobitmap", "ipg_big", "first_data_block", "blocks_count_hi", "inode_size_odd", "desc_size_small", "log_flex_big",
-               "rsv_gdt_big", "first_ino_big", "log_cluster_big", "first_meta_bg_big"]
+               "rsv_gdt_big", "first_ino_big", "log_cluster_big", "first_meta_bg_big", "free_inodes_beyond", "free_inodes_all"]
 
 
 def op_superblock_geometry(fs, d, r, keep_csum, which=None):
@@ -666,6 +666,9 @@ def op_superblock_geometry(fs, d, r, keep_csum, which=None):
         struct.pack_into("<I", d, sb + 84, r.choice([0, 1, u32(0), u32(0) + 1, 0xFFFFFFFF]))
     elif which == "log_cluster_big":
         struct.pack_into("<I", d, sb + 28, r.choice([u32(24) + 1, 29, 30, 31, 0xFFFFFFFF]))
+    elif which in ("free_inodes_beyond", "free_inodes_all"):
+        # more free inodes than inodes / no inode in use at all: resize2fs's minimum-size estimate starts from the difference
+        struct.pack_into("<I", d, sb + 16, u32(0) + (r.choice([1, 5, 0x7FFFFFFF]) if which == "free_inodes_beyond" else 0))
     elif which == "first_meta_bg_big":
         struct.pack_into("<I", d, sb + 0x104, r.choice([1, fs.desc_blocks, fs.desc_blocks + 1, 0xFFFFFFFF]))
     fix_sb_csum(fs, d)
